@@ -280,11 +280,16 @@ def run_fclones(rd, args, *, stdin=None, plan=None, now_ns=T0_NS, seed=1, cwd=No
     out_path = os.path.join(rd.scratch, "out.%d" % n)
     err_path = os.path.join(rd.scratch, "err.%d" % n)
     in_path = os.path.join(rd.scratch, "in.%d" % n)
+    if stdin is None and seed % 2 and any(a in ("--transform", b"--transform") for a in args):
+        # slow signal delivery: a child that fclones starts and kills right away (the transform probe) gets
+        # 20 ms to run first - decided here, not left to the race between the two processes
+        plan = list(plan or []) + [rule(kind="kill", act="delay:20000", count="inf")]
     with open(plan_path, "w") as f:
         f.write(plan_text(plan or []))
-    # stdin=None models a terminal: a pipe that never delivers data and never reaches EOF while
-    # fclones runs (fclones probes the transform program with inherited stdio; with an empty stdin
-    # that probe can print into the report stream before it is killed - a race, see DESIGN)
+    # stdin=None models, depending on the parity of the seam seed, a terminal (a pipe that never delivers
+    # data and never reaches EOF while fclones runs) or /dev/null. fclones used to probe the transform
+    # program with inherited stdio; with an empty stdin that probe printed into the report stream before it
+    # was killed - a race, repaired in /repo (see known_findings.json)
     hold_w = None
     if stdin is not None:
         with open(in_path, "wb") as f:
@@ -326,7 +331,11 @@ def run_fclones(rd, args, *, stdin=None, plan=None, now_ns=T0_NS, seed=1, cwd=No
         e["SIMFS_CTL_FD"] = str(sock_child.fileno())
         pass_fds = (sock_child.fileno(),)
     t0 = time.time()
-    if stdin is None:
+    if stdin is None and seed % 2:
+        # started from cron / CI: standard input is /dev/null (immediate EOF) - a transform program probed
+        # with inherited stdio would read EOF and print into the report stream
+        fin_obj = open(os.devnull, "rb")
+    elif stdin is None:
         pr, hold_w = os.pipe()
         fin_obj = os.fdopen(pr, "rb")
     else:
